@@ -64,9 +64,24 @@ def chal_of_digest(d):
 EDGE = [0, 1, 2, Q - 1, Q - 2, 2 ** 63 - 1, 2 ** 63, 2 ** 64 - 1, CLOSE, (Q - 1) // 2]
 
 
+# scalars with structure in their binary expansion, where windowed / signed-digit / word-wise scalar arithmetic has its special
+# cases: long runs of ones (also shifted), single bits at word boundaries, alternating patterns, words that are all zero or all one
+def _bit_patterns():
+    out = []
+    for k in (32, 63, 64, 65, 96, 127, 128, 129, 160, 192, 224, 250, 254):
+        out += [2 ** k, 2 ** k - 1, 2 ** k + 1]
+    out += [(2 ** 128 - 1) << 40, (2 ** 130 - 1) << 100, (2 ** 64 - 1) << 64, (2 ** 64 - 1) << 128, 5 * 2 ** 200 + ((2 ** 128 - 1) << 40) + 9,
+            int("aa" * 31, 16), int("55" * 31, 16), int("0f" * 31, 16), int("ff00" * 15, 16), int("00000000ffffffff" * 3 + "00000000", 16),
+            Q - 2 ** 64, Q - 2 ** 128, Q - 2 ** 32 + 1, (Q - 1) // 3, Q // 2 ** 32]
+    return [x % Q for x in out]
+
+
+PATTERNS = _bit_patterns()
+
+
 def rand_scalar(rng, edge_p=0.3):
     if rng.random() < edge_p:
-        return rng.choice(EDGE)
+        return rng.choice(EDGE) if rng.random() < 0.6 else rng.choice(PATTERNS)
     return rng.randrange(Q)
 
 
@@ -258,6 +273,18 @@ class Panic(Exception):
     pass
 
 
+class Deviation(RuntimeError):
+    """an honest flow of the real API (establishment, payment) stopped where the model says it completes, and the driver went on
+    to use its result: a disagreement between implementation and model (correspondence failure), not a machinery error"""
+
+
+class Flow(dict):
+    """result of an honest flow; asking it for a part that does not exist because the flow stopped early is a Deviation"""
+
+    def __missing__(self, key):
+        raise Deviation("an honest flow stopped at stage %r: it has no %r" % (self.get("stage"), key))
+
+
 class HarnessOpError(RuntimeError):
     """an op of the adaptor returned an error (typically: the implementation refused to decode an input). The driver only
     sends such ops inputs that the model accepts (deliberately invalid inputs go through ops that report the refusal as a
@@ -272,6 +299,9 @@ class Harness:
         self.p = None
         self.calls = 0
         self.trace = None
+        self.setup = []                      # ops that create long-lived handles (merchant configurations): part of every script
+        import collections
+        self.recent = collections.deque(maxlen=80)   # the last ops with their answers (attached to failing cases without a script)
         self.start()
 
     def begin(self):
@@ -279,8 +309,10 @@ class Harness:
         self.trace = []
 
     def end(self):
+        """the script of a case: the handle-creating setup ops of this process, then the ops since begin(), each with the
+        answer it got ({"op": [...], "resp": [...]}); `./check Cnn --replay file` re-runs them, renumbering handles"""
         t, self.trace = self.trace, None
-        return t or []
+        return (list(self.setup) + t) if t else []
 
     def start(self):
         pre = None
@@ -296,8 +328,12 @@ class Harness:
         """returns (status, tokens) with status in ok / panic / err; raises HarnessDied on abort"""
         line = " ".join([op] + [str(a) for a in args]) + "\n"
         self.calls += 1
+        entry = {"op": [op] + [str(a) for a in args], "resp": None}
         if self.trace is not None:
-            self.trace.append([op] + [str(a) for a in args])
+            self.trace.append(entry)
+        if op in ("m_from_parts", "m_new"):
+            self.setup.append(entry)
+        self.recent.append(entry)
         try:
             self.p.stdin.write(line)
             self.p.stdin.flush()
@@ -309,6 +345,7 @@ class Harness:
             self.start()
             raise HarnessDied("harness exited with status %s on: %s" % (rc, line[:300]))
         toks = resp.split()
+        entry["resp"] = [t if len(t) <= 400 else t[:400] + "..." for t in toks]
         if toks[0] == "ok":
             return "ok", toks[1:]
         if toks[0] == "panic":
@@ -334,6 +371,10 @@ class Harness:
 
     def rng(self, seed, tape=()):
         self.call("rng", seed, scs(tape) if tape else "-")
+
+    def rng_blocks(self, seed, blocks):
+        """script the next 64-byte draws with full 64-byte blocks (integers below 2^512, little endian)"""
+        self.call("rng64", seed, "".join(b.to_bytes(64, "little").hex() for b in blocks))
 
     def served(self):
         t = self.call("served")
@@ -491,18 +532,27 @@ class Run:
                 self.samples.append(case)
         return d
 
+    def _with_script(self, case):
+        """a failing case that carries no script of its own gets the harness ops that led to it (setup + the most recent ones)"""
+        h = getattr(self, "h", None)
+        if h is None or (isinstance(case, dict) and case.get("script")):
+            return case
+        if len(self.corr_fail) + len(self.monitor_fail) >= 12:
+            return case
+        return dict(case, script=list(h.setup) + [e for e in list(h.recent)[-60:] if e not in h.setup])
+
     def check_corr(self, name, ok, case):
         c = self.corr.setdefault(name, [0, 0])
         c[0 if ok else 1] += 1
         if not ok:
-            self.corr_fail.append((name, case))
+            self.corr_fail.append((name, self._with_script(case)))
         return ok
 
     def check_monitor(self, name, ok, case):
         c = self.monitors.setdefault(name, [0, 0])
         c[0 if ok else 1] += 1
         if not ok:
-            self.monitor_fail.append((name, case))
+            self.monitor_fail.append((name, self._with_script(case)))
         return ok
 
 
